@@ -337,6 +337,11 @@ def jobs(tier):
                         for custom in ((1,) if k else (0,)):
                             out.append(dict(func="save_read", params=dict(kind=kind, pdo_no=pdo_no, k=k, subs=list(subs),
                                                                          dev_start=start, custom=custom), weight=k + 1))
+        if q:
+            # the upper end of the mapping count (the full 0..8 sweep is in the thorough tier)
+            for k in (7, 8):
+                out.append(dict(func="save_read", params=dict(kind=kind, pdo_no=1, k=k, subs=[1, 2], dev_start="blank",
+                                                             custom=1), weight=k + 1))
         for wide, k in (("i64", 1), ("u32x2", 2), ("r64", 1)):
             out.append(dict(func="save_read", params=dict(kind=kind, pdo_no=1, k=k, subs=[1, 2], dev_start="blank",
                                                          custom=0, wide=wide)))
@@ -357,7 +362,7 @@ META = dict(
                "a fresh node reads the device back and must see the same configuration and subscription.",
     level_note="SDO framing is C01's business: upload/download are replaced on the node's SdoClient instance. Bit 29 of "
                "the COB-ID word (frame format) is not modelled; the library ignores it.",
-    bounds=dict(quick="RPDO and TPDO, PDO numbers 1 and 512, k in {0,1,3} mapped objects, optional sub-entries all present "
+    bounds=dict(quick="RPDO and TPDO, PDO numbers 1 and 512, k in {0,1,3,7,8} mapped objects, optional sub-entries all present "
                       "/ only 1-2 / 1,2,5,6, device blank or enabled with a different mapping; dictionary-sourced read (DCF value / "
                       "default); predefined COB-IDs for PDO 1..5; RemoteNode.load_configuration for PDO 1 and 512 against the "
                       "strict device together with ordinary objects",
